@@ -55,6 +55,11 @@ def instrument_line(line: str):
         lt = core.replace("\t", " ").split()
         if len(lt) >= 3 and is_num(lt[0]) and lt[1] == "=" and lt[2] in ("N", "S", "E", "n", "s", "e"):
             return DONTCARE
+    # a zero-padded kind index whose VALUE is a supported one ("N 07 0", "N 00 5", "S 02 9"): '<0..7>' may be read as a digit or
+    # as a number, the statement does not say — don't-care ("N 0123 0", "N 12 0", "S 022 1" have unsupported values: reject)
+    if len(tokens) == 5 and is_num(tokens[0]) and tokens[1] == "=" and tokens[2] in ("N", "S") and is_num(tokens[3]) and len(tokens[3]) > 1 \
+            and is_num(tokens[4]) and ((tokens[2] == "N" and int(tokens[3]) <= 7) or (tokens[2] == "S" and int(tokens[3]) == 2)):
+        return DONTCARE
     # E with an empty word ("5 = E", "5 = E ") is don't-care
     loose = core.replace("\t", " ").split()
     if len(loose) == 3 and is_num(loose[0]) and loose[1] == "=" and loose[2] in ("E", "e"):
